@@ -13,7 +13,10 @@ CLAIMS = {
              "layer, decided on MIR: index arithmetic (N−1)q with floor/ceil/fract; the five strategies' needs_lower/needs_higher and "
              "interpolate formulas (CAS on extracted terms); the bulk routine applies the strategy to the values looked up at lower/higher "
              "index of the j-th q and stores it in the j-th slot; result shape = input shape with the axis resized to the number of requested "
-             "quantiles; single = slice 0 of bulk; sorted+deduped index vector; axis passed through; error rows. Not decided: floating-point "
+             "quantiles; single = slice 0 of bulk; sorted+deduped index vector; axis passed through; error rows. (c) Range analysis of the "
+             "strategy formulas by linear bounds over the element type's range (R26): results inside [lower, higher], exact coincidence for "
+             "equal neighbours, representability of every intermediate for unsigned/signed/float families - the last fails for signed and float "
+             "lanes (defect D8, a known finding with failing inputs). Not decided: floating-point "
              "rounding of q·(N−1) and of the formulas, the 'within one unit' clause for integer element types, representability.",
         design_ref="DESIGN.md §4 C01",
         note=NOTE_BASE + " sympy for the strategy formulas.",
